@@ -55,7 +55,28 @@ func zzC10Mgr(pre int) {
 		{"ChangePassphrase", func(ns walletdb.ReadWriteBucket) error {
 			return w.mgr.ChangePassphrase(ns, zzPrvPass, []byte("new-pass"), true, zzFastScrypt)
 		}},
+		{"SetBirthday", func(ns walletdb.ReadWriteBucket) error { return w.mgr.SetBirthday(ns, time.Unix(1700000000, 0)) }},
 	}
+	// the addresses the next requests would hand out, learnt from a throwaway
+	// manager inside a transaction that is rolled back: they are not issued
+	// unless the faulted operation (or its retry) commits them
+	zzMust(w.view(func(ns walletdb.ReadBucket) error {
+		m, err := Open(ns, zzPubPass, w.params)
+		zzMust(err)
+		psm, err := m.FetchScopedKeyManager(w.scope)
+		zzMust(err)
+		_ = w.update(func(ns walletdb.ReadWriteBucket) error {
+			mas, err := psm.NextExternalAddresses(ns, 0, 2)
+			zzMust(err)
+			w.dropped = append(w.dropped, mas...)
+			mas, err = psm.NextInternalAddresses(ns, 0, 1)
+			zzMust(err)
+			w.dropped = append(w.dropped, mas...)
+			return zzErrRollback
+		})
+		m.Close()
+		return nil
+	}))
 	op := ops[verifrt.Choice(len(ops), "op")]
 	verifrt.Note("faulted: " + op.name)
 	verifrt.Observe("op", op.name)
@@ -84,6 +105,7 @@ func zzC10Mgr(pre int) {
 	}
 	// retry without the fault
 	verifrt.Observe("tx", "committed")
+	w.dropped = nil // the retry may issue them
 	rerr := w.update(op.run)
 	verifrt.Assert(rerr == nil, "c10-mgr-retry-succeeds")
 	if op.name == "SetSyncedTo" {
